@@ -20,6 +20,7 @@ type boundsProver struct {
 	depth int
 	// induction hypotheses of the upper-bound proofs in progress: loop-header phi -> the bound being proved for it
 	ubAssume map[*ssa.Phi]int64
+	minLenDepth int
 }
 
 // sameSeq: a and b denote the same sequence value (same SSA value, or loads of the same cell with no
@@ -256,6 +257,29 @@ func (bp *boundsProver) minLen(x ssa.Value, at ssa.Instruction) int64 {
 		return n
 	}
 	best := int64(0)
+	// a helper's slice parameter (not reassigned: SSA value) is at least as long as what every call site hands it
+	if prm, ok := x.(*ssa.Parameter); ok && bp.minLenDepth < 3 {
+		idx := paramIndex(prm)
+		callers := bp.c.P.Callers(prm.Parent())
+		if idx >= 0 && len(callers) > 0 {
+			least := int64(-1)
+			bp.minLenDepth++
+			for _, e := range callers {
+				if e.Site == nil || e.Site.Common().IsInvoke() || e.Site.Common().StaticCallee() == nil || idx >= len(e.Site.Common().Args) {
+					least = 0
+					break
+				}
+				n := bp.minLen(e.Site.Common().Args[idx], e.Site)
+				if least < 0 || n < least {
+					least = n
+				}
+			}
+			bp.minLenDepth--
+			if least > best {
+				best = least
+			}
+		}
+	}
 	// L-re: result of FindStringSubmatch on a constant regexp, known non-nil here
 	if call, ok := x.(*ssa.Call); ok && calleeName(call) == "(*regexp.Regexp).FindStringSubmatch" {
 		if n, ok := bp.regexpGroups(call.Call.Args[0]); ok {
@@ -536,6 +560,11 @@ func (bp *boundsProver) proveLen(v ssa.Value, x ssa.Value, goal relGoal, at ssa.
 						if sep, ok := constString(call.Call.Args[1]); ok && int64(len(sep)) >= k && bp.sameSeq(call.Call.Args[0], x) {
 							return true
 						}
+					case "strings.LastIndexByte", "strings.IndexByte":
+						// a byte found at i: i+1 <= len(s); not found: -1+1 = 0
+						if k <= 1 && bp.sameSeq(call.Call.Args[0], x) {
+							return true
+						}
 					}
 				}
 			}
@@ -734,6 +763,22 @@ func (bp *boundsProver) geZero(v ssa.Value, atBlock *ssa.BasicBlock, seen map[ss
 	}
 	if _, ok := rangeIndexConst(v); ok {
 		return true
+	}
+	// the index functions of package strings answer -1 or a position: not -1 means >= 0
+	if call, ok := v.(*ssa.Call); ok {
+		switch calleeName(call) {
+		case "strings.Index", "strings.LastIndex", "strings.IndexByte", "strings.LastIndexByte", "strings.IndexRune", "strings.IndexAny", "strings.LastIndexAny":
+			for _, ce := range dominatingConds(atBlock) {
+				bo, ok := ce.Cond.(*ssa.BinOp)
+				if !ok || bo.X != v {
+					continue
+				}
+				k, isK := constInt(bo.Y)
+				if isK && k == -1 && ((bo.Op == token.NEQ && ce.Val) || (bo.Op == token.EQL && !ce.Val)) {
+					return true
+				}
+			}
+		}
 	}
 	if b, ok := v.Type().Underlying().(*types.Basic); ok && b.Info()&types.IsUnsigned != 0 {
 		return true
